@@ -45,6 +45,11 @@ SEEDS = {
  'C09d': ('C09', 'back row_::execute (action+guard rows): convert_event_and_execute_entry<next_state_type, next_state_type> instead of <next_state_type, T2>', 'outer row with action AND guard into direct<> / fork / entry_pt: the submachine is entered through its initial states'),
  'C10d': ('C10', 'back/back11 process_event_internal: completion step only when the event was handled and NOT also deferred', 'two regions: one takes the event into a state with a completion transition, the other defers the same event (result TRUE|DEFERRED)'),
  'C11d': ('C11', 'back11 is_event_handling_blocked_helper: the end-interrupt exemption is tested first and wins over the terminate check', 'terminate state and interrupt state active at once in two regions, then the end-interrupt event'),
+ 'C12d': ('C12', 'backmp11 process_event_internal: a submachine called by its parent no longer has its own try/catch ("the parent already dispatches from within its try block")', 'a behaviour of a transition inside an active submachine throws while the parent dispatches: wrong level catches, outer rows never tried, submachine stays busy'),
+ 'C15d': ('C15', 'backmp11 exit_pt caches the root machine address in a plain member set by init(RootSm&) (copied by the defaulted copy/move)', 'copy / assign / move a machine with a connected exit point in a nested submachine, then the copy takes the exit point: the event lands in the original'),
+ 'C17d': ('C17', 'back11 is_flag_active: the region loop stops as soon as the flag was found ("no need to ask the remaining regions") - also for Flag_AND', 'Flag_AND, two or more regions, region 0 carries the flag and another does not'),
+ 'C19d': ('C19', 'active_state_switch_after_exit::after_exit returns the current state (copy-paste from the neighbouring policy)', 'active_state_switch_after_exit and an observation from inside the transition action'),
+ 'C20d': ('C20', 'basic_polymorphic_base copy assignment: destroy() skipped when both sides hold the same dynamic type (storage "reused", but copy() copy-constructs)', 'copy-assign a backmp11 machine onto one that has a pending event of the same non-trivial / heap-stored type at the same pool index'),
  'C13b': ('C13', 'backmp11 favor_runtime_speed needs_forward_transition: no longer looks into sub-submachines (a type computation)', 'three-level hierarchy, event only the innermost machine has rows for, middle machine does not mention it'),
  'C14a': ('C14', 'puml parse_row_right: action length clamped to 0 when the guard is written before the action list', 'a transition line of the form  A -> B : ev [guard] / action'),
  'C14c': ('C14', 'functor Internal<> rows with an action always answer HANDLED_TRUE (instead of get_functor_return_value<Action>)', 'state-local internal row whose action defers (Defer or a deferring sequence): answers TRUE, the back-end re-dispatches the deferred event at once'),
